@@ -694,3 +694,103 @@ macro_rules! init_harness {
 include!("_lower_init_harnesses.rs");
 
 
+
+// ---------------------------------------------------------------------------------------------
+// Abstract lower allocator for the allocator-level (L2) obligations.
+// The L2 contracts see the lower allocator only through the contracts of its public functions,
+// over this ghost view: LF[t] = number of free frames of tree t; one designated target block
+// (TGT) with its ghost status; the outcome of the one free under test (PUT_OK).
+//   Lower::get(start, k, None)   : Ok only if LF[t] >= 2^k; for k == 0 (and for an entirely free
+//                                  tree at any k) Ok exactly when frames are free (C12 contract);
+//                                  Ok(f) => f aligned, inside tree t and the managed range, LF[t] -= 2^k
+//   Lower::get(_, k, Some(f))    : Ok iff the target block is entirely free (C02 get_at contract)
+//   Lower::put(f, k)             : Ok iff the block is allocated (PUT_OK), then LF[t] += 2^k
+//   Lower::stats_at(f, TREE_ORDER).free_frames == LF[t];  Lower::stats().free_frames == sum LF
+// ---------------------------------------------------------------------------------------------
+pub(crate) mod ghost {
+    pub const GT: usize = 3;
+    pub static mut LF: [usize; GT] = [0; GT];
+    pub static mut TGT_FRAME: usize = 0;
+    pub static mut TGT_ORDER: usize = 0;
+    pub static mut TGT_FREE: bool = false;
+    pub static mut PUT_OK: bool = false;
+    pub static mut NET_ALLOCS: usize = 0;
+    pub static mut LAST_FRAME: usize = 0;
+    pub static mut LAST_ORDER: usize = 0;
+}
+pub(crate) fn ghost_lower<'a>(frames: usize) -> Lower<'a> {
+    Lower { len: frames, bitfields: &[], children: &[] }
+}
+impl<'a> Lower<'a> {
+    pub(crate) fn get_contract(&self, start: RowId, order: usize, frame: Option<FrameId>) -> Result<FrameId> {
+        use ghost::*;
+        kani::assert(order <= TREE_ORDER, "Lower::get precondition: order <= TREE_ORDER");
+        let n = 1usize << order;
+        unsafe {
+            match frame {
+                Some(f) => {
+                    kani::assert(f.0 % n == 0 && f.0 + n <= self.len, "Lower::get_at precondition: aligned block inside the managed range");
+                    kani::assert(f.0 == TGT_FRAME && order == TGT_ORDER, "L2 harness: the only targeted block is the designated target");
+                    let t = f.0 / TREE_FRAMES;
+                    if TGT_FREE {
+                        TGT_FREE = false;
+                        LF[t] -= n;
+                        NET_ALLOCS += 1;
+                        LAST_FRAME = f.0;
+                        LAST_ORDER = order;
+                        Ok(f)
+                    } else {
+                        Err(Error::Memory)
+                    }
+                }
+                None => {
+                    kani::assert(start.0 * 64 < self.len, "Lower::get precondition: the row hint lies inside the managed range");
+                    let t = start.0 * 64 / TREE_FRAMES;
+                    let ok: bool = kani::any();
+                    kani::assume(!ok || LF[t] >= n);
+                    kani::assume(ok || !(order == 0 && LF[t] >= 1));
+                    kani::assume(ok || LF[t] < TREE_FRAMES);
+                    if ok {
+                        let f: usize = kani::any();
+                        kani::assume(f / TREE_FRAMES == t && f % n == 0 && f + n <= self.len);
+                        LF[t] -= n;
+                        NET_ALLOCS += 1;
+                        LAST_FRAME = f;
+                        LAST_ORDER = order;
+                        Ok(FrameId(f))
+                    } else {
+                        Err(Error::Memory)
+                    }
+                }
+            }
+        }
+    }
+    pub(crate) fn put_contract(&self, frame: FrameId, order: usize) -> Result<()> {
+        use ghost::*;
+        kani::assert(order <= TREE_ORDER, "Lower::put precondition: order <= TREE_ORDER");
+        let n = 1usize << order;
+        kani::assert(frame.0 % n == 0 && frame.0 + n <= self.len, "Lower::put precondition: aligned block inside the managed range");
+        unsafe {
+            if PUT_OK {
+                LF[frame.0 / TREE_FRAMES] += n;
+                Ok(())
+            } else {
+                Err(Error::Memory)
+            }
+        }
+    }
+    pub(crate) fn stats_at_contract(&self, frame: FrameId, order: usize) -> Stats {
+        kani::assert(order == TREE_ORDER && frame.0 < self.len, "L2 uses stats_at only per tree, for managed frames");
+        let free = unsafe { ghost::LF[frame.0 / TREE_FRAMES] };
+        Stats { free_frames: free, free_huge: kani::any(), free_trees: (free == TREE_FRAMES) as usize }
+    }
+    pub(crate) fn stats_contract(&self) -> Stats {
+        let mut free = 0;
+        let mut t = 0;
+        while t < self.len.div_ceil(TREE_FRAMES) {
+            free += unsafe { ghost::LF[t] };
+            t += 1;
+        }
+        Stats { free_frames: free, free_huge: kani::any(), free_trees: kani::any() }
+    }
+}
